@@ -9,11 +9,15 @@ A job is executed in a sandbox directory of its own with a fresh `API()` object:
   calls         [{"op": "parse", "ctx": i, "idl": spelling, "write": {path: text}?} | {"op": "generate", "gc": k, "target": t, "clean": b} | {"op": "report", "gc": k}]
                 (`write`: files created / replaced in the sandbox just before the parse — an edit of the IDL between two runs)
   snapshot_calls  true: a directory snapshot around every call (`created` / `deleted` per call)
+  symlinks      {link: target} symbolic links to directories, created after the files (`{ROOT}/…` = absolute target,
+                otherwise the target as spelled, relative to the directory of the link)
 A configuration that `API.configure` refuses is an observation (`configure[i]`), calls on it are `skipped`.
 The observation: per call the slice of the write log, exception class / diagnostics (with the message text, sandbox
 root replaced: C10 compares it between runs of the same implementation, never with a model), for a parse the dumped
 declarations (with the source position: file relative to the sandbox root, line, column); the configuration fields the model needs as the implementation validated them; directory
-snapshots before/after; the parsed report and its validation against `API().processed_files_model`.
+snapshots before/after; the parsed report and its validation against `API().processed_files_model`; for every input
+entry of a report whether it exists and which file it denotes (`os.path.realpath`, relative to the real sandbox root);
+per parse call the files below the sandbox that were opened for reading (`sys.addaudithook`, same naming).
 """
 from __future__ import annotations
 
@@ -163,6 +167,28 @@ def subst(x, root: str):
 
 
 RAWSET = {"n": 0, "where": []}
+OPENED = {"on": False, "installed": False, "paths": []}
+
+
+def install_open_probe():
+    """every `open` for reading while a parse call runs (the files the front end actually reads), whoever opens them"""
+    if OPENED["installed"]:
+        return
+    OPENED["installed"] = True
+
+    def hook(event, args):
+        if event == "open" and OPENED["on"]:
+            path, mode = args[0], args[1]
+            if isinstance(path, (str, bytes, os.PathLike)) and (mode is None or "r" in str(mode)) and "+" not in str(mode or ""):
+                OPENED["paths"].append(os.fsdecode(path))
+    sys.addaudithook(hook)
+
+
+def identity(p: str, cwd: str, realroot: str) -> dict:
+    """which file the path `p` (as spelled; relative = relative to `cwd`, nothing normalised) denotes"""
+    a = p if os.path.isabs(p) else os.path.join(cwd, p)
+    ex = os.path.isfile(a)
+    return {"entry": p, "exists": ex, "real": os.path.relpath(os.path.realpath(a), realroot) if ex else None}
 
 
 def install_loop_probe():
@@ -192,6 +218,12 @@ def run_job(job: dict, base: Path, idx: int) -> dict:
         p.write_text(text)
     cwd = root / job.get("cwd", ".")
     cwd.mkdir(parents=True, exist_ok=True)
+    for link, target in (job.get("symlinks") or {}).items():
+        lp = root / link
+        lp.parent.mkdir(parents=True, exist_ok=True)
+        os.symlink(subst(target, R), lp, target_is_directory=True)
+    realroot = os.path.realpath(R)
+    install_open_probe()
     obs = {"root": R, "calls": [], "cfg": [], "meta": []}
     before = snapshot(root) if job.get("snapshot") else None
     old = os.getcwd()
@@ -245,7 +277,13 @@ def run_job(job: dict, base: Path, idx: int) -> dict:
                         (root / rel).parent.mkdir(parents=True, exist_ok=True)
                         (root / rel).write_text(text)
                     try:
-                        gc = contexts[call["ctx"]].parse(subst(call["idl"], R))
+                        OPENED["paths"], OPENED["on"] = [], True
+                        try:
+                            gc = contexts[call["ctx"]].parse(subst(call["idl"], R))
+                        finally:
+                            OPENED["on"] = False
+                            seen = [os.path.realpath(x if os.path.isabs(x) else os.path.join(str(cwd), x)) for x in OPENED["paths"]]
+                            rec["opened"] = [os.path.relpath(x, realroot) for x in seen if x.startswith(realroot + os.sep)]
                         results.append(gc)
                         rec["defs"] = [decl_dump(t) for t in gc.defs]
                         for d in rec["defs"]:
@@ -318,7 +356,9 @@ def run_job(job: dict, base: Path, idx: int) -> dict:
                         API().processed_files_model.model_validate(data)
                     except Exception as e:
                         valid = f"{type(e).__name__}: {str(e)[:300]}"
-                    reports.append({"path": str(rp), "data": data, "valid": valid, "sha": sha(raw)})
+                    parsed = data.get("parsed", {}) if isinstance(data, dict) else {}
+                    inputs = {k: [identity(str(x), str(cwd), realroot) for x in (parsed.get(k) or [])] for k in ("idl", "external_types")}
+                    reports.append({"path": str(rp), "data": data, "valid": valid, "sha": sha(raw), "inputs": inputs})
                 except Exception as e:
                     reports.append({"path": str(rp), "data": None, "valid": f"unreadable {type(e).__name__}: {e}"})
         obs["reports"] = reports
